@@ -51,6 +51,8 @@ func importLine(path, st string) string {
 		return ""
 	case "":
 		return "\t" + strconv.Quote(path) + "\n"
+	case "raw": // the path written as a raw string literal
+		return "\t`" + path + "`\n"
 	}
 	return "\t" + st + " " + strconv.Quote(path) + "\n"
 }
@@ -59,7 +61,7 @@ func qual(path, st string) string {
 	switch st {
 	case ".":
 		return ""
-	case "":
+	case "", "raw":
 		return impPkg[path] + "."
 	}
 	return st + "."
@@ -334,7 +336,11 @@ func c10Run(cs c10Case) (sig, what string, rec obj) {
 	src := [][2]string{}
 	for _, p := range c10Paths {
 		if cs.DstState[p] != "absent" {
-			src = append(src, [2]string{p, cs.DstState[p]})
+			st := cs.DstState[p]
+			if st == "raw" {
+				st = ""
+			}
+			src = append(src, [2]string{p, st})
 		}
 	}
 	rec = obj{"src": src, "ov": [][2]string{}, "used": usedL, "imports": obs.Imports, "quals": obs.Quals, "locals": []string{}, "kept": true, "shape": 0}
@@ -394,7 +400,7 @@ func checkC10(c *Ctx) {
 	r := rand.New(rand.NewSource(c.Seed))
 	var cases []c10Case
 	srcStates := []string{"", "z1", "."}
-	dstStates := []string{"absent", "", "z", ".", "clash"}
+	dstStates := []string{"absent", "", "z", ".", "clash", "raw"}
 	clash := map[string]string{"A/y": "x", "a/x": "y", "b.io/x": "y"} // an alias that is another library's package name
 	n := 1200
 	if !c.Quick() {
